@@ -91,17 +91,17 @@ UNITS += [
     # effectful stub that REQUIRES !dry_run
     Unit(name="repair_index_dry_run", file=RIX, kind="block", within="pub(crate) fn repair_index<S: Open>(",
          anchor="let mut checker = PackChecker::new(repo)?;", block_end="@fn_end",
-         block_sig="fn repair_index_dry_run(repo: &VRepo, be: &VBe, opts: RepairIndexOptions, dry_run: bool) -> (r: RusticResult<()>)",
+         block_sig="fn repair_index_dry_run(repo: &VRepo, be: &VBe, opts: RepairIndexOptions, dry_run: bool, vwarm: &mut WarmToken) -> (r: RusticResult<()>)",
          block_tail="",
          functions=["commands::repair::index::repair_index (dry run: whole body after the append-only guard)"],
          rewrites=[
              Rw("PackChecker::new(repo)?", "PackCheckerD::new(repo)?", why="PackChecker -> stub (lists packs: read only)"),
              Rw("for index in be.stream_all::<IndexFile>(&p)? {", "let vstream = be.vstream_all_index(&p)?; for index in it: vstream.into_iter() {", why="channel stream -> vector of per-file results; Verus for-loop syntax"),
-             Rw(r"repo\.warm_up_wait\(pack_read_header\.iter\(\)\.map\(\|\(id, _, _\)\| \*id\)\)\?;", "repo.vwarm_up_wait(&pack_read_header)?;", regex=True, why="iterator adapter argument -> the vector itself; warm-up is no repository write (ASSUMED)"),
+             Rw(r"repo\.warm_up_wait\(pack_read_header\.iter\(\)\.map\(\|\(id, _, _\)\| \*id\)\)\?;", "repo.vwarm_up_wait(&pack_read_header, vwarm)?;", regex=True, why="iterator adapter argument -> the vector itself; warm-up is no repository write (ASSUMED); the result is kept as the proof token the header reads require (C16)"),
              Rw("let indexer = Indexer::new(be.clone()).into_shared();", "let mut indexer = IndexerD::vnew(be);", why="Arc<RwLock<Indexer>> -> owned stub with ghost emptiness"),
              Rw(r"p\.set_length\(pack_read_header\.len\(\)\.try_into\(\)\.map_err\(\|err\| \{.*?\}\)\?\);", "p.set_length(pack_read_header.len() as u64);" + "\n" * 7, regex=True, why="usize -> u64 conversion with error-building closure -> cast (lossless on 64 bit)"),
-             Rw("for (id, size_hint, packsize) in pack_read_header {", "for e in it3: pack_read_header.into_iter() { let (id, size_hint, packsize) = (e.0, e.1, e.2);", why="tuple pattern in for -> explicit destructuring; Verus for-loop syntax"),
-             Rw("PackHeader::from_file(be, id, size_hint, packsize)", "vheader_from_file(be, PackIdD(id.0), size_hint, packsize)", why="PackHeader::from_file (unit of C08) -> stub: reads only"),
+             Rw("for (id, size_hint, packsize) in pack_read_header {", "for e in it3: pack_read_header.iter() { let (id, size_hint, packsize) = (e.0, e.1, e.2);", why="tuple pattern in for -> explicit destructuring; Verus for-loop syntax"),
+             Rw("PackHeader::from_file(be, id, size_hint, packsize)", "vheader_from_file(be, PackIdD(id.0), size_hint, packsize, vwarm)", why="PackHeader::from_file (unit of C08) -> stub: reads only"),
              Rw(r"IndexPack \{\s*blobs: header\.into_blobs\(\),\s*id,\s*\.\.Default::default\(\)\s*\}", "vindexpack_from_header(header, id)" + "\n" * 4, regex=True, why="struct update syntax with Default -> stub constructor"),
              Rw("indexer.write().unwrap().add_with(pack, false)?;", "indexer.vadd_with(pack, false, Ghost(dry_run))?;", why="RwLock guard + Indexer::add_with -> effectful stub: REQUIRES !dry_run (it may save an index file on its own)"),
              Rw("indexer.write().unwrap().finalize()?;", "indexer.vfinalize(Ghost(dry_run))?;", why="RwLock guard + Indexer::finalize -> effectful stub: REQUIRES (dry_run ==> indexer empty)"),
@@ -110,9 +110,9 @@ UNITS += [
              Rw("be.remove(FileType::Index, &index_id, true)?;", "be.vremove_index(index_id, Ghost(dry_run))?;", why="remove of an index file -> effectful stub: REQUIRES !dry_run"),
          ],
          contract="\n    // (implicit obligations: the preconditions `!dry_run` of every stub that writes to or removes from the repository)\n",
-         hints={},
+         hints=[("loop_start", "2", "        proof { assert(pack_read_header@[it3.index@] == *e); }")],
          loops={1: "\n        invariant dry_run ==> changed_index_files@.len() == 0,\n",
-                2: "\n        invariant dry_run ==> changed_index_files@.len() == 0, dry_run ==> indexer.empty@,\n",
+                2: "\n        invariant dry_run ==> changed_index_files@.len() == 0, dry_run ==> indexer.empty@,\n            forall|k: int| 0 <= k < pack_read_header@.len() ==> vwarm.ids@.contains((#[trigger] pack_read_header@[k]).0.0),\n",
                 3: "\n        invariant dry_run ==> changed_index_files@.len() == 0,\n"},
          ),
 ]
